@@ -2,6 +2,7 @@ import Efp.Theory.Checker
 import Efp.Model.Graph
 import Efp.Proofs.Chain
 import Efp.Proofs.ChainTerm
+import Efp.Proofs.Links
 /-!
 # C08 — the calculation graph is consistent and complete
 
@@ -14,6 +15,13 @@ once, after everything it depends on, and contains **every** dependent of the ed
 on every graph without shared ids (`code_update_order_correct`, proved about the literal port of
 `attr_updates_chain` in `Proofs/Chain.lean`), and on acyclic graphs with mirrored links the
 algorithm terminates (`code_update_order_terminates`, `Proofs/ChainTerm.lean`).
+*Link bookkeeping* (Model F, `Model/Links.lean`: a literal port of `ExplainableObject.__init__`,
+`set_modeling_obj_container`, `add/remove_child…`, `ModelingObject.__setattr__` and
+`replace_in_mod_obj_container_without_recomputation`, compared with the real code on random
+operation sequences by `K-bookkeeping`): after **any** sequence of these operations that does not
+raise, every attached value is listed by each of its recorded ancestors, every listed child is
+attached and records the parent, and ids are unique (`links_mirrored_after_any_operations`).
+Swapping detach and attach in `replace…` (seed C08-a) breaks it (`attach_before_detach_breaks_links`).
 *Complete* (every true read is a recorded ancestor) is a statement about the rules' bodies; it is
 tested by perturbation on the real code and is an assumption (H1) of C01's theorems.
 -/
@@ -80,6 +88,44 @@ theorem code_update_order_terminates (g : Efp.Graph.G) (fuel u : Nat) (rk : Arra
     ∃ chain, Efp.Graph.attrUpdatesChain g fuel u = some chain :=
   Efp.Graph.attrUpdatesChain_terminates g (Efp.Graph.wfOk_sound g hwf) (fun x => rk[x]!)
     (Efp.Graph.rankOk_RankOK g rk fuel hrk) (Efp.Graph.ancInChiOk_sound g hbi) fuel u hu hfuel
+
+/-- **the bookkeeping operations keep the links mirrored**: for every sequence of value creations,
+attribute assignments, replacements and detachments that does not raise -/
+theorem links_mirrored_after_any_operations (ops : List Efp.Links.Op) (s : Efp.Links.LS)
+    (h : Efp.Links.run ops = .ok s) : Efp.Links.Mirror s ∧ Efp.Links.Uniq s :=
+  ⟨(Efp.Links.run_inv ops s h).mirror, (Efp.Links.run_inv ops s h).slot.uniq⟩
+
+/-- … and one assignment or replacement keeps them mirrored from any state that satisfies the invariant -/
+theorem replace_keeps_links_mirrored (s : Efp.Links.LS) (old new : Nat) (s' : Efp.Links.LS)
+    (hI : Efp.Links.Inv s) (ho : old < s.size) (hn : new < s.size)
+    (h : Efp.Links.replace s old new = .ok s') : Efp.Links.Inv s' :=
+  Efp.Links.replace_inv s old new s' hI ho hn h
+
+theorem setattr_keeps_links_mirrored (s : Efp.Links.LS) (sl : Efp.Links.Slot) (v : Nat) (s' : Efp.Links.LS)
+    (hI : Efp.Links.Inv s) (hv : v < s.size)
+    (h : Efp.Links.setAttr s sl v = .ok s') : Efp.Links.Inv s' :=
+  Efp.Links.setAttr_inv s sl v s' hI hv h
+
+/-- the state in which a calculated value 1 (slot (0,1)) depends on an input 0 (slot (0,0)) and a
+freshly computed replacement 2 with the same ancestor exists -/
+def demoLinks : Except Efp.Links.LErr Efp.Links.LS :=
+  Efp.Links.run [.mk [], .setAttr (0, 0) 0, .mk [0], .setAttr (0, 1) 1, .mk [0]]
+
+/-- **attaching the replacement before detaching the old value breaks the links** (the replacement
+has the old value's id: it is not added, then the id is removed) -/
+theorem attach_before_detach_breaks_links :
+    (match demoLinks with
+     | .ok s => (match Efp.Links.replaceAttachFirst s 1 2 with
+                 | .ok s' => Efp.Links.mirrorOk s'
+                 | .error _ => true)
+     | .error _ => true) = false := by decide +kernel
+
+/-- … while the code's order keeps them -/
+example : (match demoLinks with
+     | .ok s => (match Efp.Links.replace s 1 2 with
+                 | .ok s' => Efp.Links.mirrorOk s'
+                 | .error _ => false)
+     | .error _ => false) = true := by decide +kernel
 
 /-! ## non-vacuity -/
 def demoReads : Nat → List Nat
